@@ -5,8 +5,8 @@ import kernels, tvlib
 import solverlib as sl
 import compos
 
-GEN_SOURCES = ["skglm/solvers/anderson_cd.py", "skglm/solvers/common.py", "skglm/penalties/separable.py", "skglm/datafits/single_task.py", "skglm/solvers/group_bcd.py", "skglm/datafits/group.py"]
-EXTRA_TARGETS = ["Gen/KernCD.vo", "Gen/KernACD.vo", "Gen/DfSingle.vo", "Gen/PenSeparable.vo", "Gen/PenBlock.vo", "Gen/KernBCD.vo", "Gen/DfGroup.vo"]
+GEN_SOURCES = ["skglm/solvers/anderson_cd.py", "skglm/solvers/common.py", "skglm/penalties/separable.py", "skglm/datafits/single_task.py", "skglm/solvers/group_bcd.py", "skglm/datafits/group.py", "skglm/solvers/prox_newton.py"]
+EXTRA_TARGETS = ["Gen/KernCD.vo", "Gen/KernACD.vo", "Gen/DfSingle.vo", "Gen/PenSeparable.vo", "Gen/PenBlock.vo", "Gen/KernBCD.vo", "Gen/DfGroup.vo", "Gen/KernPN.vo", "Gen/SparseOps.vo"]
 TRUSTED_BASE = [
     "Coq 8.16.1 kernel (coqc); vm_compute only in correspondence files",
     "axioms: Reals (sig_forall_dec, sig_not_dec), functional_extensionality_dep, Classical_Prop.classic",
@@ -30,7 +30,8 @@ def correspondence(tier, rng):
     r = tvlib.run_cases(kc, ["Gen.ProxFuncs", "Gen.PenSeparable", "Gen.PenBlock", "Gen.SparseOps", "Gen.DfSingle", "Gen.KernCD", "Gen.KernACD"], "C20", shard=40, jobs=16)
     base = dict(cases=len(kc), bad=r["bad"][:10], errors=r["errors"], distribution=dict(kernel_cases=len(kc)),
                 distinct_nontrivial=len({c[0] for c in kc}), samples=[dict(case=kc[0][0][:300])])
-    return kernels.add_bcd_kernel_corr(base, rng, 105 if tier == "quick" else 700, "C20k")
+    base = kernels.add_bcd_kernel_corr(base, rng, 105 if tier == "quick" else 700, "C20k")
+    return kernels.add_pn_kernel_corr(base, rng, 90 if tier == "quick" else 540, "C20p")
 
 
 def oracle(tier, rng, deep=False):
